@@ -22,10 +22,36 @@ TIMEOUT = {'quick': 1500, 'thorough': 4 * 3600}
 RULE = ('A case is one input (module index or .mm file) x the set of configurations it was run under. distinct_nontrivial = inputs run under at least two '
         'configurations that produced at least one non-empty file.')
 ASSUMPTIONS = ['fresh subprocess per (batch, hash seed); determinism across machines/Python versions is out of scope']
-FLOORS = {'quick': {'module_inputs': 60, 'hash_seeds': 8, 'history_cases': 40, 'translate_inputs': 2, 'inputs_with_memoisation': 20, 'mm_multi_var_targets': 10}}
+FLOORS = {'quick': {'module_inputs': 60, 'hash_seeds': 8, 'history_cases': 40, 'translate_inputs': 2, 'inputs_with_memoisation': 20, 'mm_multi_var_targets': 10, 'mm_multi_variable_axiom_inputs': 20}}
 FLOORS['thorough'] = dict(FLOORS['quick'], module_inputs=1000, hash_seeds=32, history_cases=500)
 
 MM_SKIP = {'transfer.mm', 'transfer5000.mm', 'transfer-largest-slice.mm', 'disjointness-alt-lemma.mm', 'svm5.mm', 'perceptron.mm', 'impreflex.mm', 'impreflex-compressed.mm'}
+
+
+def var_db(rng):
+    names = []
+    while len(names) < rng.randint(3, 5):
+        n = ''.join(rng.choice('abcdefghkmnpqrstuvwxyz') for _ in range(rng.randint(1, 3))) + rng.choice('XYZ')
+        if n not in names:
+            names.append(n)
+    decl = '\n'.join(f'{n}-is-var $f #Variable {n} $.' for n in names)
+    axioms = []
+    for i in range(rng.randint(1, 3)):
+        vs = rng.sample(names, rng.randint(2, min(3, len(names))))
+        t = vs[0]
+        for v in vs[1:]:
+            t = f'( \\app {t} {v} )' if rng.random() < 0.5 else f'( \\app {v} {t} )'
+        axioms.append(f'var-axiom-{i} $a |- ( \\imp {t} {vs[-1]} ) $.')
+    return ('$c #Pattern #Variable $.\n$v ph0 ph1 ph2 ' + ' '.join(names) + ' $.\n'
+            'ph0-is-pattern $f #Pattern ph0 $.\nph1-is-pattern $f #Pattern ph1 $.\nph2-is-pattern $f #Pattern ph2 $.\n' + decl + '\n'
+            '$c |- $.\n$c \\imp \\app $.\n$c ( ) $.\n'
+            f'var-is-pattern $a #Pattern {names[0]} $.\n'
+            'imp-is-pattern $a #Pattern ( \\imp ph0 ph1 ) $.\napp-is-pattern $a #Pattern ( \\app ph0 ph1 ) $.\n'
+            'proof-rule-prop-1 $a |- ( \\imp ph0 ( \\imp ph1 ph0 ) ) $.\n'
+            'proof-rule-prop-2 $a |- ( \\imp ( \\imp ph0 ( \\imp ph1 ph2 ) ) ( \\imp ( \\imp ph0 ph1 ) ( \\imp ph0 ph2 ) ) ) $.\n'
+            '${\n proof-rule-mp.0 $e |- ( \\imp ph0 ph1 ) $.\n proof-rule-mp.1 $e |- ph0 $.\n proof-rule-mp $a |- ph1 $.\n$}\n'
+            + '\n'.join(axioms) + '\n'
+            'goal $p |- ( \\imp ph0 ph0 ) $=\n  ( imp-is-pattern proof-rule-prop-2 proof-rule-prop-1 proof-rule-mp ) AAABZBZF\n  AFABBGFBAFACAFDEAADE $.\n')
 
 
 def run_worker(args, hashseed, timeout=1800):
@@ -70,15 +96,17 @@ def shard(ctx):
     # ---- histories (one hash seed per shard, different shards use different ones)
     nh = 3 if ctx.quick else 40
     try:
-        hist = run_worker(['histories', ctx.seed, ctx.shard * nh, nh, sc / 'h'], ctx.shard % 8)
+        alone = run_worker(['hist_alone', ctx.seed, ctx.shard * nh, nh, sc / 'h1'], ctx.shard % 8)
+        after = run_worker(['hist_after', ctx.seed, ctx.shard * nh, nh, sc / 'h2'], ctx.shard % 8)
     except Exception as ex:
         ctx.inconclusive(f'histories worker failed: {ex!r}'[:400])
         return
-    for case, res in hist.items():
+    for case, res0 in alone.items():
+        res = dict(after.get(case, {}), A=res0['A'])
         ctx.count('history_cases')
         ctx.case(('hist', ctx.seed, case), nontrivial=True)
         for h in ('B,A', 'A,A', 'A,B,A'):
-            if res[h] != res['A']:
+            if res.get(h) != res['A']:
                 diff = sorted(k for k in set(res['A']) | set(res[h]) if res['A'].get(k) != res[h].get(k))
                 ctx.violation(f'serialize_depends_on_history:{h}', f'{case}: files {diff} of module A differ when serialised in history [{h}] instead of alone',
                               {'case': case, 'verif_seed': ctx.seed, 'history': h, 'differing': diff})
@@ -108,6 +136,13 @@ def shard(ctx):
                 ctx.count('mm_multi_var_targets')
     except Exception as ex:
         ctx.note('mm_generator_unavailable', repr(ex)[:200])
+    # databases whose exported axioms mention several distinct #Variable metavariables (their disambiguation order must not
+    # depend on the hash seed); variable names are random so that set orders differ between cases
+    for k in range(2 if ctx.quick else 8):
+        f = sc / 'mm' / f'vars{ctx.shard}_{k}.mm'
+        f.write_text(var_db(ctx.rng))
+        gen_files.append((f, 'goal'))
+        ctx.count('mm_multi_variable_axiom_inputs')
     mine = [f + '::goal' for i, f in enumerate(files) if i % ctx.nshards == ctx.shard] + [f'{f}::{t}' for f, t in gen_files]
     if mine:
         tr = {}
